@@ -14,7 +14,7 @@ def run(ctx) -> Report:
     if not ctx.replay:
         P.run_mc(rep, ctx, "C01")
     n = 1 if ctx.quick else 12
-    classes = {"idem": 260 * n, "plain": 200 * n, "idem-start": 60 * n, "idem-long": 40 * n, "idem-wrap": 12, "acks0": 40 * n,
+    classes = {"idem": 260 * n, "plain": 200 * n, "idem-start": 60 * n, "idem-long": 40 * n, "idem-wrap": 12, "acks0": 40 * n, "idem-noleader": 20 * n,
                "versions": 40 * n}
     P.conformance(rep, ctx, "C01", classes)
     rep.extra.update(
